@@ -61,9 +61,12 @@ def argsig(t, depth=0):
             return argsig(t[2][0], depth)
         return '%s(%s)' % (nm, ','.join(argsig(a, depth + 1) for a in t[2]))
     if k == 'aggr':
-        return '%s{%s}' % (normname(t[1]).split('::')[-1], ','.join(argsig(a, depth + 1) for a in t[2]))
+        # zero-sized markers (PhantomData) carry nothing: a slot holding one is not an operand
+        ops = [a for a in t[2] if not (isinstance(a, tuple) and a and a[0] == 'aggr' and str(a[1]).endswith('PhantomData') and not a[2])]
+        return '%s{%s}' % (normname(t[1]).split('::')[-1], ','.join(argsig(a, depth + 1) for a in ops))
     if k == 'const':
-        return str(t[1])
+        # promoted constants are named after the function they live in: flavour-normalised like every other path
+        return re.sub(r'<.*>::(\w+)::promoted\[\d+\]$', r'\1::promoted', normname(str(t[1])))
     if k == 'join':
         return '|'.join(sorted(set(argsig(a, depth + 1) for a in t[1])))
     if k in ('binop', 'unop'):
@@ -196,8 +199,68 @@ def bag(F, b):
                 continue
             # arguments by provenance (which value flows in), so that `insert(key(v))` and `insert(key(node))` differ
             sig = tuple(argsig(pv.of_operand(a)) for a in t['args'])
+            if nn == 'std::iter::once':
+                continue      # the one-element source of an `extend`: accounted for at the extend
+            if nn.endswith('::extend') and len(sig) == 2 and sig[1].startswith('once(') and sig[1].endswith(')'):
+                # `set.extend(once(k))` adds exactly k: the same event as `set.insert(k)`
+                m_ = re.match(r'^<(.*) as std::iter::Extend<.*>>::extend$', nn)
+                nn = (m_.group(1) if m_ else nn.rsplit('::', 1)[0]) + '::insert'
+                ot_ = strip_payload(pv.of_operand(t['args'][1]))
+                sig = (sig[0], argsig(ot_[2][0]) if isinstance(ot_, tuple) and ot_ and ot_[0] == 'call' and ot_[2] else sig[1][5:-1])
+            # capacity is not observable: with_capacity(n) is new(), reserve / shrink are nothing, and a length that is read only
+            # to size a buffer is not an event either
+            last_ = nn.split('::')[-1]
+            if last_ in ('reserve', 'reserve_exact', 'shrink_to_fit', 'shrink_to') and nn.startswith('std::'):
+                continue
+            if last_ == 'with_capacity' and nn.startswith('std::'):
+                nn, sig = nn.rsplit('::', 1)[0] + '::new', ()
+            if last_ in ('len', 'len_outbound', 'len_inbound', 'size_hint', 'capacity') and not t['dst']['p'] and _only_sizes_a_buffer(b, t['dst']['l']):
+                continue
             ev[('CALL', nn, depth, ctx_of(bi), sig)] += 1
     return ev
+
+
+def _only_sizes_a_buffer(b, d):
+    """the value in local d flows (through plain moves / copies) only into with_capacity / reserve calls"""
+    al = {d}
+    ch = True
+    while ch:
+        ch = False
+        for bb in b['blocks']:
+            for s_ in bb['stmts']:
+                if s_['k'] == 'assign' and not s_['dst']['p'] and s_['dst']['l'] not in al and s_['rv']['k'] == 'use' and s_['rv']['ops'] and \
+                        s_['rv']['ops'][0].get('k') in ('move', 'copy') and s_['rv']['ops'][0]['pl']['l'] in al and not s_['rv']['ops'][0]['pl']['p']:
+                    al.add(s_['dst']['l']); ch = True
+    used = False
+    for bb in b['blocks']:
+        if bb['cleanup']:
+            continue
+        for s_ in bb['stmts']:
+            if s_['k'] != 'assign':
+                continue
+            if s_['rv']['k'] == 'use' and s_['dst']['l'] in al and not s_['dst']['p']:
+                continue
+            if any(_mentions(s_['rv'], x) for x in al):
+                return False
+        t = bb['term']
+        if t['k'] == 'call':
+            if any(a.get('k') in ('move', 'copy') and a['pl']['l'] in al for a in t['args']):
+                if t['callee'].split('::')[-1] not in ('with_capacity', 'reserve', 'reserve_exact'):
+                    return False
+                used = True
+        elif any(_mentions(t, x) for x in al):
+            return False
+    return used
+
+
+def _mentions(o, x):
+    if isinstance(o, dict):
+        if o.get('l') == x and 'p' in o:
+            return True
+        return any(_mentions(v, x) for v in o.values())
+    if isinstance(o, list):
+        return any(_mentions(v, x) for v in o)
+    return False
 
 
 MUT_POOL = {'push': 'APPEND', 'push_back': 'APPEND', 'push_str': 'APPEND', 'extend': 'APPEND', 'append': 'APPEND', 'write_fmt': 'APPEND', 'write_str': 'APPEND', 'write_char': 'APPEND',
@@ -905,6 +968,9 @@ def sib(ctx):
     return out
 
 
+FLAVTXT_RE = re.compile(r'\bgdsl::(sync_digraph|sync_ungraph|digraph|ungraph)\b|\bsrc/(sync_digraph|sync_ungraph|digraph|ungraph)/')
+
+
 def flav(ctx, flavours=FLAVOURS):
     """flavour closure: a body under gdsl::F:: references only gdsl::F:: and gdsl::error"""
     F = ctx.F
@@ -934,6 +1000,16 @@ def flav(ctx, flavours=FLAVOURS):
                     loc = sorted({ty['p'] for g in t.get('gargs', []) for ty in F.ty_walk(g) if ty['k'] == 'adt' and ty.get('local') and ty['p'].split('::')[0] in FLAVOURS})
                     if loc:
                         tyid.append('%s of %s at %s' % (t['callee'].split('::')[-1], loc[0], t['sp']))
+            def _consts(o):
+                if isinstance(o, dict):
+                    if o.get('k') == 'const' and isinstance(o.get('v'), str) and 'str' in (o.get('ty') or '') and FLAVTXT_RE.search(o['v']):
+                        tyid.append('text constant %s (module_path! / file!)' % o['v'][:60])
+                    for v in o.values():
+                        _consts(v)
+                elif isinstance(o, list):
+                    for v in o:
+                        _consts(v)
+            _consts(b['blocks'])
             out.append(Obl('FLAV', q, b['span'], 'references only %s:: and error::' % fl, not bad and not tyid,
                            'foreign flavour paths: ' + ', '.join(sorted(bad)[:4]) if bad else ('observes the identity of a flavour type (differs between the siblings): ' + ', '.join(tyid) if tyid else 'closed')))
     return out
